@@ -50,7 +50,7 @@ PROFILES = {
                 scdurs=[0, 0, 1, 2], stmos=[0, 1, 2, 3, -1], p_never=0.12, p_forever=0.25),
     # ties among requirements, hash permutations, windows
     "C12": dict(p_flat=0.6, max_flat=9, max_dur=2, p_exc=0.15, p_crit=0.1,
-                wins=[0, 0, 1, 2, 3], tmos=[-1], p_never=0.0, p_forever=0.05),
+                wins=[0, 0, 1, 2, 3], tmos=[-1], p_never=0.0, p_forever=0.15),
     # three exit paths at every level, every handler against every timeout
     "C13": dict(p_flat=0.1, max_nodes=10, max_dur=2, p_exc=0.3, p_crit=0.5,
                 tmos=[-1, -1, 1, 2], sdurs=[0, 1, 2, 3, 4], stmos=[0, 1, 2, 3, -1],
@@ -895,7 +895,9 @@ def scenarios(prop, count, seed):
         sc["snap"] = prop == "C14"
         hrn = sc["harness"]
         n = sc["cfg"]["n"]
-        hrn["prep"] = rng.choice([0, 0, 0, 1, 2, 3, 3, 4, 4])
+        hrn["prep"] = rng.choice([0, 0, 0, 1, 2, 3, 3, 4, 4, 5, 6])
+        hrn["omitdefaults"] = rng.random() < 0.3
+        hrn["tupleret"] = rng.random() < 0.2
         hrn["emptymsg"] = rng.random() < 0.3
         hrn["rterr"] = rng.choice([False, False, False, False, True, True, "state", "lookup", "timeout"])
         hrn["earlycoro"] = rng.random() < 0.15  # the coroutine object of the run is created before the edges
@@ -936,7 +938,7 @@ def scenarios(prop, count, seed):
             hrn["verbose"] = True
         if hrn.get("verbose") is True and rng.random() < 0.4:
             hrn["verbose"] = "mixed"            # some schedulers of the tree are verbose, some are not
-        hrn["addstyle"] = rng.choice(["ctor", "ctor", "add", "update"])
+        hrn["addstyle"] = rng.choice(["ctor", "ctor", "add", "update", "topdown"])
         hrn["nolabel"] = rng.random() < 0.25
         if rng.random() < stall_p:
             hrn["stall"] = [rng.choice([0, 0, 1, 2, 3]) if sc["cfg"]["kind"][j] == "job" else 0
